@@ -23,16 +23,17 @@ theorem advance_elapsed (tick A : Nat) : ∀ (j : Nat) (hs : Host), (advance tic
   | j + 1, hs => by
     rw [advance, advance_elapsed tick A j, step_adds_tick, Nat.succ_mul]; omega
 
-theorem advance_running (tick A : Nat) : ∀ (j : Nat) (hs : Host), (advance tick A j hs).running = hs.running
-  | 0, _ => rfl
-  | j + 1, hs => by rw [advance, advance_running tick A j]; rfl
+/-- a host whose software keeps running (it did not return in this step). -/
+theorem stepEnd_keeps_running (tick A : Nat) (hs : Host) (hr : hs.running = true) (he : hs.exited = false) :
+    (hostStepEnd tick A hs).running = true ∧ (hostStepEnd tick A hs).exited = false := by
+  simp [hostStepEnd, hr, he]
 
-theorem advance_winStart (tick A : Nat) : ∀ (j : Nat) (hs : Host), hs.running = true →
+theorem advance_winStart (tick A : Nat) : ∀ (j : Nat) (hs : Host), hs.running = true → hs.exited = false →
     (advance tick A j hs).winStart = hs.winStart + j * A
-  | 0, hs, _ => by simp [advance]
-  | j + 1, hs, h => by
-    have hr : (hostStepEnd tick A hs).running = true := h
-    rw [advance, advance_winStart tick A j _ hr]
+  | 0, hs, _, _ => by simp [advance]
+  | j + 1, hs, h, he => by
+    have hk := stepEnd_keeps_running tick A hs h he
+    rw [advance, advance_winStart tick A j _ hk.1 hk.2]
     simp [hostStepEnd, h, Nat.succ_mul]; omega
 
 theorem advance_wake (tick A : Nat) : ∀ (j : Nat) (hs : Host), (advance tick A j hs).wake = hs.wake
@@ -94,7 +95,7 @@ theorem sleep_exact_in_window (A : Nat) (hs : Host) (ms : Nat) (h : hs.winStart 
 /-- **Timers in general**: a sleep of `ms` milliseconds that suspends the task and is woken `j`
     step boundaries later is observed at `start + ms + j·tick − j·A`: exact iff the runtime's clock
     and the host timer advance by the same amount per step. -/
-theorem sleep_across_steps (tick A : Nat) (hs : Host) (ms j : Nat) (hr : hs.running = true)
+theorem sleep_across_steps (tick A : Nat) (hs : Host) (ms j : Nat) (hr : hs.running = true) (hx : hs.exited = false)
     (h : hs.winStart ≤ hs.hnow)
     (hsusp : (hostSleep A hs ms).2 = false)
     (hlo : hs.winStart + j * A ≤ hs.hnow + ms * 1000000)
@@ -110,7 +111,7 @@ theorem sleep_across_steps (tick A : Nat) (hs : Host) (ms j : Nat) (hr : hs.runn
   have hw : (advance tick A j (hostSleep A hs ms).1).wake = some (hs.hnow + ms * 1000000) := by
     rw [advance_wake, hs1]
   have hT : (advance tick A j (hostSleep A hs ms).1).winStart = hs.winStart + j * A := by
-    rw [advance_winStart tick A j _ (by rw [hs1]; exact hr), hs1]
+    rw [advance_winStart tick A j _ (by rw [hs1]; exact hr) (by rw [hs1]; exact hx), hs1]
   have hE : (advance tick A j (hostSleep A hs ms).1).elapsed = hs.elapsed + j * tick := by
     rw [advance_elapsed, hs1]
   have hsm : (j + 1) * A = j * A + A := Nat.succ_mul j A
@@ -129,12 +130,12 @@ theorem sleep_across_steps (tick A : Nat) (hs : Host) (ms j : Nat) (hr : hs.runn
     omega
 
 /-- **Whole-millisecond ticks**: the timer fires at exactly the requested virtual instant. -/
-theorem sleep_exact_whole_ms (tick : Nat) (hs : Host) (ms j : Nat) (hr : hs.running = true)
+theorem sleep_exact_whole_ms (tick : Nat) (hs : Host) (ms j : Nat) (hr : hs.running = true) (hx : hs.exited = false)
     (h : hs.winStart ≤ hs.hnow) (hsusp : (hostSleep tick hs ms).2 = false)
     (hlo : hs.winStart + j * tick ≤ hs.hnow + ms * 1000000)
     (hhi : hs.hnow + ms * 1000000 < hs.winStart + (j + 1) * tick) :
     elapsedNow (hostTurnBegin tick (advance tick tick j (hostSleep tick hs ms).1)) = elapsedNow hs + ms * 1000000 := by
-  have := (sleep_across_steps tick tick hs ms j hr h hsusp hlo hhi).2
+  have := (sleep_across_steps tick tick hs ms j hr hx h hsusp hlo hhi).2
   omega
 
 theorem ceilMs_whole (k : Nat) : ceilMs (k * 1000000) = k * 1000000 := by
